@@ -74,6 +74,7 @@ type Exec struct {
 	noDef          bool
 	loopHeapStored map[*ssa.Alloc]bool
 	siteNames      map[*ssa.Function]map[token.Pos]string
+	curLoopHead    *ssa.BasicBlock
 	pdoms          map[*ssa.Function]*pdomInfo
 	noMerge        bool
 	merges         int
@@ -347,6 +348,22 @@ func (x *Exec) VerifyFunc(key string) (err error) {
 	}
 	x.curFunc = key
 	x.curContract = c
+	if len(c.Sites) > 0 {
+		have := map[string]bool{}
+		for _, n := range x.callSites(fn) {
+			have[n] = true
+		}
+		for site := range c.Sites {
+			if !have[site] {
+				return fmt.Errorf("cannot bind call-site annotation %q of %s: no such call in the function", site, key)
+			}
+		}
+	}
+	for k := range c.LoopInv {
+		if k >= len(x.loops(fn).heads) {
+			return fmt.Errorf("cannot bind loop %d of %s: the function has %d loops", k, key, len(x.loops(fn).heads))
+		}
+	}
 	defer func() {
 		if r := recover(); r != nil {
 			if u, ok := r.(unsupported); ok {
@@ -1449,6 +1466,7 @@ func (x *Exec) assumeLoopInv(st *State, fr *Frame, head *ssa.BasicBlock) *loopCu
 // only; everything else falls back to forgetting the whole field array.
 func (x *Exec) havocLoop(st *State, fr *Frame, head *ssa.BasicBlock) {
 	body := x.loops(fr.fn).blocks[head]
+	x.curLoopHead = head
 	// pass 1: locals assigned in the loop
 	allocs := newModset()
 	heapStored := map[*ssa.Alloc]bool{}
@@ -1515,7 +1533,9 @@ func (x *Exec) havocLoop(st *State, fr *Frame, head *ssa.BasicBlock) {
 	for a := range ms.allocs {
 		if p, ok := fr.regs[a]; ok {
 			if cp, ok := p.(CellPtr); ok {
-				st.cells[cp.C] = st.freshVal(cp.C.typ, "loop_"+cp.C.name)
+				nv := st.freshVal(cp.C.typ, "loop_"+cp.C.name)
+				st.boundRefs(nv) // whatever the variable refers to at the loop head was allocated before this point
+				st.cells[cp.C] = nv
 			}
 		}
 	}
@@ -1593,6 +1613,29 @@ func (x *Exec) instrModsLoop(st *State, fr *Frame, in ssa.Instruction, ms *modse
 		ms.maps = true
 	case *ssa.Call:
 		cc := &i.Call
+		if b, isBuiltin := cc.Value.(*ssa.Builtin); isBuiltin && (b.Name() == "copy" || b.Name() == "append") {
+			// destination allocated inside the loop body: the object does not exist at the loop head
+			if sl, ok := cc.Args[0].(*ssa.Slice); ok && b.Name() == "copy" {
+				if al, ok := sl.X.(*ssa.Alloc); ok && x.loops(fr.fn).blocks[x.curLoopHead][al.Block()] {
+					return
+				}
+			}
+			// otherwise only the element arrays of the destination's element type are affected
+			if st2, ok := under(cc.Args[0].Type()).(*types.Slice); ok {
+				func() {
+					defer func() {
+						if r := recover(); r != nil {
+							ms.elems = true
+						}
+					}()
+					keys, _, _ := st.elemKeys(st2.Elem())
+					for _, k := range keys {
+						ms.keys[k] = true
+					}
+				}()
+				return
+			}
+		}
 		var c *Contract
 		var key string
 		var fn *ssa.Function
